@@ -558,7 +558,19 @@ func replayC13(raw json.RawMessage) (bool, string) {
 	var x c13Case
 	json.Unmarshal(raw, &x)
 	if x.Calls < 0 {
-		return false, "race-detector findings are replayed by running the -race binary (bin/check C13 quick)"
+		rb := os.Getenv("VERIF_RACE_BIN")
+		if rb == "" {
+			return false, "race-detector findings are replayed with the -race binary (VERIF_RACE_BIN; bin/check builds it)"
+		}
+		cmd := exec.Command(rb, "racebody")
+		cmd.Env = append(os.Environ(), "GORACE=halt_on_error=0 exitcode=0", "GOMAXPROCS=8")
+		var so, se bytes.Buffer
+		cmd.Stdout, cmd.Stderr = &so, &se
+		cmd.Run()
+		if strings.Contains(se.String(), "DATA RACE") {
+			return true, "data race reported:\n" + raceExcerpt(se.String())
+		}
+		return strings.Contains(so.String(), "RACEBODY-MISMATCH"), "free-running results differ from sequential"
 	}
 	if !hooks.Available {
 		return false, "needs the instrumented build"
